@@ -31,6 +31,11 @@ CHECKS.update({
    text="Antecedent.activation_degree is verified against its own contract for expression trees of ANY shape: a proposition is the hedges applied from the one nearest the term outwards to the term's membership of the variable's value (output variable: aggregated activation of the term), `any` yields 1, a disabled variable 0, `and`/`or` are the block's conjunction/disjunction applied to (left, right) in that order; recursive calls are replaced by the contract with a decreasing height measure; no raise for a loaded well-formed tree; writes nothing. Rule.activate_with stores and returns weight x that value. Static: `and` binds tighter than `or`, both binary and left-associative in the operator table read from the AST. Bounded (B, not proved): text -> postfix -> tree (Function.infix_to_postfix and Antecedent.load) is checked on rules generated from the grammar against a reference evaluation of the generated tree.",
    note=A_WIRE + " Interface fact used: Any.hedge is the constant 1 (C05). The shunting-yard stage has no inductive proof (bounded stand-in only)."),
 })
+CHECKS.update({
+ "C12": dict(cat="proof", design="8/C12", tech="loop-invariant VCs from the real AST of OutputVariable.defuzzify over batches of symbolic length (index-function arrays, ghost fill/pprev), induction lemma cascade.base/step; z3",
+   text="OutputVariable.defuzzify is verified for defuzzified sequences of ANY length n >= 1 (a float is n = 1) and every setting: the np.nditer fill-forward loop (invariant over the row index), the masked default substitution, the clipping value setter; every row equals commit(fill) and by the induction lemma (base, step, commit idempotent) equals the sequential per-row `step` on the committed value, hence any split into calls/batches gives the same values; previous_value is the last value held before the call; a disabled variable is untouched; on ValueError (no defuzzifier) or a failing defuzzifier value, previous value and fuzzy output are unchanged; the defuzzifier receives (fuzzy, minimum, maximum). clear() resets value, previous value and fuzzy output. A bounded run-time stand-in (B) replays sequences x splits x 12 settings x failures x clear().",
+   note=A_WIRE + " A-KIND: the defuzzifier is assumed to return an ndarray (np.nditer and item assignment need one); that kind clause is checked per concrete defuzzifier under C09/C10/C02, where the pinned tree has a known defect for weighted defuzzifiers."),
+})
 TODO = {}
 def main():
     props = [json.loads(l) for l in open(os.path.join(HERE, "properties.jsonl"))]
